@@ -63,6 +63,9 @@ P = {
 "C06": dict(
   decided={
     "C06.a": "get_location: parser and file name derive from get_model(model_obj), offsets from model_obj; nchar = end - start; keys line/col/nchar/filename; _tx_position/_tx_position_end are taken from .position/.position_end of the same node",
+    "C06.b": "collected attributes (incl. _tx_position/_tx_position_end) are copied to user objects one by one; an unsettable attribute suppresses only itself",
+    "C06.c": "the text handed to the parser is the caller's string, unmodified",
+    "C06.d": "position arithmetic is Arpeggio's (a re-implementation in textX is an analysis error: numeric correctness is not decidable here)",
   },
   declined="exactness of spans under whitespace/comments/suppression (Arpeggio parse-tree positions), nesting and ordering of slices",
   technique="origin (ownership) dataflow on pos_to_linecol sites"),
@@ -91,6 +94,8 @@ P = {
     "C09.a": "conservation: every cross-reference taken from the work list ends in exactly one of re-queued / counted+stored / exception (all paths of the loop body)",
     "C09.b": "driver loop: condition conjoins 'unresolved > 0' and 'resolved this round > 0'; counters reset each iteration and fed only by resolve_one_step",
     "C09.c": "the unresolved error is raised iff the counter is positive after the loop and names the same delayed lists",
+    "C09.d": "the report iterates each model's own delayed references",
+    "C07.b": "(shared with C07) a Postponed result is never replaced by a builtin nor stored",
   },
   declined="'succeeds exactly when some order resolves everything' and order independence (depend on provider semantics)",
   technique="path enumeration over the resolver loop body (lazy decision table) + ranking-argument shape of the driver loop"),
@@ -99,6 +104,7 @@ P = {
     "C10.a": "FQN.find_obj restricts candidate attributes to containment (excludes parent and reference attributes)",
     "C10.b": "_find_referenced_obj tries the referencing object first, then climbs parent only; textx_isinstance dominates the success return",
     "C10.c": "list-valued and scalar-valued descent branches agree (both test the name and return the match)",
+    "C10.e": "the FQN search helpers never raise for a failed candidate; the candidate filter excludes by name only dunder and _tx_ names",
     "C10.d": "objects found by the FQN search are recognised by None-test, not by truth value",
   },
   declined="correctness for all trees and names",
@@ -107,6 +113,8 @@ P = {
   decided={
     "C11.a": "find_object_with_path acceptance table: Postponed returned as is; accepted iff no name part remains and (no class or textx_isinstance); alternatives iterated in stored order, first hit; ReferenceProxy iff use_proxy",
     "C11.b": "every node class built by RRELVisitor defines the interface the evaluator calls",
+    "C11.d": "navigation results: an object selected by name is returned with the path extended by it; a name part is consumed iff it selected the object",
+    "C11.e": "RRELDots yields the ancestor only if all parent steps could be taken, otherwise no match",
     "C11.c": "objects found by a navigation step are recognised by None-test, not by truth value",
   },
   declined="soundness/completeness of the lazy search with the visited set over all expressions x models (the bulk of C11)",
@@ -115,6 +123,7 @@ P = {
   decided={
     "C12.a": "no constructor field of an RREL node is dropped by its printer; RRELExpression prints its flags for every non-empty flag set",
     "C12.b": "every literal a printer emits is a terminal of the grammar rule that builds that class; navigation form table agrees",
+    "C12.d": "the path printer's branches depend on the node kind only (leading dots never get a separator)",
     "C12.c": "printers and evaluators distinguish 'no fixed name' from an empty fixed name by None-test",
   },
   declined="string-level round-trip equality for all trees",
@@ -124,6 +133,7 @@ P = {
     "C13.a": "call_obj_processors recurses before processing (children first), own-rule processor before grammar-rule processor; in parse_tree_to_objgraph processors run after the resolution loop, the unresolved check and _end_model_construction of all models",
     "C13.b": "list branch and scalar branch both store a non-None processor result back",
     "C13.c": "descent is containment-only and skipped for match rules",
+    "C13.d": "whether a model's processors run is decided from that model's own metamodel",
   },
   declined="call counts over all containment shapes",
   technique="CFG dominance / must-pass-through + sibling-branch agreement"),
@@ -262,6 +272,8 @@ P = {
   decided={
     "C28.a": "at every pos_to_linecol site the parser and the offset belong to the same model (ownership pairing); provider call sites hand over the owner of the reference",
     "C28.b": "each raise site passes line, col and filename of the owner",
+    "C08.c": "(shared with C08) every list reference carries the position of its own element, so its error is located at that element",
+    "C06.c": "(shared with C06) the parsed text is the caller's text", "C06.d": "(shared with C06) position arithmetic is Arpeggio's",
   },
   declined="numerical correctness of line/column",
   technique="origin (ownership) dataflow + keyword coverage at raise sites"),
@@ -304,6 +316,7 @@ P = {
     "C34.c": "innermost object wins for a shared span",
     "C34.d": "spans ordered start descending, end ascending",
     "C34.e": "field roles of RefRulePosition",
+    "C34.f": "every created object is entered into the span map (None-test, not truth value)",
   },
   declined="exactness of offsets",
   technique="origin dataflow + sort-key sign analysis + fill-order rule"),
